@@ -255,6 +255,11 @@ func chessWF(p *board.Position, turn board.Color) bool {
 	if p.Castling()&board.CastlingRights(board.Black) != 0 && !at(board.E8, board.Black, board.King) {
 		return false
 	}
+	if p.Piece(turn.Opponent(), board.King) != 0 && p.IsChecked(turn.Opponent()) {
+		// the side that has just moved left its king attacked (adjacent kings included): no game reaches this, and the mover
+		// could capture a king
+		return false
+	}
 	if ep, ok := p.EnPassant(); ok {
 		if !p.IsEmpty(ep) {
 			return false
